@@ -26,7 +26,7 @@ namespace vu::pos
    template< typename Input >
    std::size_t all_rules( Input& in )
    {
-      return matches< Input, I::eol, I::eolf, any, one< 'a' >, one< '\n' >, one< '\r', 'x' >, not_one< 'a' >, not_one< '\n', '\r' >, not_one< '\n' >, not_one< '\r' >,
+      return matches< Input, I::eol, I::eolf, any, I::everything< std::size_t >, one< 'a' >, one< '\n' >, one< '\r', 'x' >, not_one< 'a' >, not_one< '\n', '\r' >, not_one< '\n' >, not_one< '\r' >,
                       range< 'a', 'z' >, range< '\t', '\r' >, not_range< 'a', 'z' >, not_range< '\0', ' ' >, ranges< 'a', 'z', '\n' >, ranges< 'a', 'z', '0', '9' >, ranges< '\t', '\r', 'x' >,
                       string< 'a', 'b' >, string< 'a', '\n', 'b' >, string< '\r', '\n' >, string< '\r' >, istring< 'a', 'B' >, istring< 'a', '\n' >, istring< '\r', 'x' >, bytes< 3 >, bytes< 1 >,
                       rep_one_min_max< 1, 3, 'x' >, rep_one_min_max< 0, 2, 'x' >, rep_one_min_max< 1, 3, '\n' >, rep_one_min_max< 0, 2, '\r' >, rep_one_min_max< 2, 2, '\n' >,
